@@ -101,6 +101,20 @@ def BinOp.ops : BinOp → List Op
   | .eq => [.EQ] | .ne => [.EQ, .NOT] | .lt => [.LT] | .le => [.GT, .NOT] | .gt => [.GT]
   | .ge => [.LT, .NOT] | .add => [.ADD] | .sub => [.SUB] | .mul => [.MUL] | .div => [.DIV]
 
+/-- Number of bytes `compileE` emits (computed without building the code). -/
+def sizeE : Expr → Nat
+  | .lit _ _ => 1
+  | .const idx _ => 1 + (uvEnc idx).length
+  | .getLocal slot _ => 1 + (uvEnc slot).length
+  | .getField idx _ => 1 + (uvEnc idx).length
+  | .setLocal slot e _ => sizeE e + (1 + (uvEnc slot).length)
+  | .setField idx e _ => sizeE e + (1 + (uvEnc idx).length)
+  | .un _ e _ => sizeE e + 1
+  | .bin op a b _ => sizeE a + (sizeE b + op.ops.length)
+  | .and a b _ => sizeE a + (3 + (1 + sizeE b))
+  | .or a b _ => sizeE a + (3 + (3 + (1 + sizeE b)))
+  | .bad => 0
+
 def compileE : Expr → PCode
   | .lit l pos => opAt l.op pos
   | .const idx pos => opArg .CONST idx pos
@@ -109,13 +123,11 @@ def compileE : Expr → PCode
   | .setLocal slot e pos => compileE e ++ opArg .SETLOCAL slot pos
   | .setField idx e pos => compileE e ++ opArg .SETFIELD idx pos
   | .un op e pos => compileE e ++ opAt op.op pos
-  | .bin op a b pos => compileE a ++ compileE b ++ (op.ops.map (fun o => (o.toByte, pos)))
+  | .bin op a b pos => compileE a ++ (compileE b ++ (op.ops.map (fun o => (o.toByte, pos))))
   | .and a b pos =>
-    let cb := compileE b
-    compileE a ++ jumpAt .JFALSE (1 + cb.length) pos ++ opAt .POP pos ++ cb
+    compileE a ++ (jumpAt .JFALSE (1 + sizeE b) pos ++ (opAt .POP pos ++ compileE b))
   | .or a b pos =>
-    let cb := compileE b
-    compileE a ++ jumpAt .JFALSE 3 pos ++ jumpAt .JUMP (1 + cb.length) pos ++ opAt .POP pos ++ cb
+    compileE a ++ (jumpAt .JFALSE 3 pos ++ (jumpAt .JUMP (1 + sizeE b) pos ++ (opAt .POP pos ++ compileE b)))
   | .bad => []
 
 mutual
@@ -136,5 +148,46 @@ end
 
 def compileP (p : Program) : PCode :=
   compileSs p.body ++ popNCode p.npop p.endPos ++ opAt .RET p.endPos
+
+end Bclv
+
+namespace Bclv
+
+/-! ## accumulator versions (linear time), proved equal to the definitions above in
+`Bclv/Proofs/Compile.lean`; the driver runs these. -/
+
+def compileEAcc : Expr → PCode → PCode
+  | .lit l pos, acc => opAt l.op pos ++ acc
+  | .const idx pos, acc => opArg .CONST idx pos ++ acc
+  | .getLocal slot pos, acc => opArg .GETLOCAL slot pos ++ acc
+  | .getField idx pos, acc => opArg .GETFIELD idx pos ++ acc
+  | .setLocal slot e pos, acc => compileEAcc e (opArg .SETLOCAL slot pos ++ acc)
+  | .setField idx e pos, acc => compileEAcc e (opArg .SETFIELD idx pos ++ acc)
+  | .un op e pos, acc => compileEAcc e (opAt op.op pos ++ acc)
+  | .bin op a b pos, acc => compileEAcc a (compileEAcc b ((op.ops.map (fun o => (o.toByte, pos))) ++ acc))
+  | .and a b pos, acc =>
+    compileEAcc a (jumpAt .JFALSE (1 + sizeE b) pos ++ (opAt .POP pos ++ compileEAcc b acc))
+  | .or a b pos, acc =>
+    compileEAcc a (jumpAt .JFALSE 3 pos ++ (jumpAt .JUMP (1 + sizeE b) pos ++ (opAt .POP pos ++ compileEAcc b acc)))
+  | .bad, acc => acc
+
+mutual
+def compileSAcc : Stmt → PCode → PCode
+  | .var (some e) _, acc => compileEAcc e acc
+  | .var none pos, acc => opAt .NIL pos ++ acc
+  | .print e pos, acc => compileEAcc e (opAt .PRINT pos ++ acc)
+  | .eval e pos, acc => compileEAcc e (opAt .POP pos ++ acc)
+  | .block ti ni openPos body npop closePos, acc =>
+    atPos openPos (Op.DEFBLOCK.toByte :: (uvEnc ti ++ uvEnc ni))
+      ++ compileSsAcc body (popNCode npop closePos ++ (opAt .ENDBLOCK closePos ++ acc))
+  | .bind ti opt pos, acc => atPos pos (Op.BIND.toByte :: (uvEnc ti ++ [opt])) ++ acc
+  | .bad, acc => acc
+def compileSsAcc : Stmts → PCode → PCode
+  | .nil, acc => acc
+  | .cons s rest, acc => compileSAcc s (compileSsAcc rest acc)
+end
+
+def compilePFast (p : Program) : PCode :=
+  compileSsAcc p.body (popNCode p.npop p.endPos ++ opAt .RET p.endPos)
 
 end Bclv
